@@ -1,0 +1,32 @@
+//! Verification hooks (feature `verif-hooks`). Off by default; nothing here is compiled without
+//! the feature. Hooks push one JSON object per observed step into a thread-local sink.
+#![allow(missing_docs, clippy::pedantic)]
+use std::cell::RefCell;
+
+thread_local! {
+    static SINK: RefCell<Option<Vec<String>>> = const { RefCell::new(None) };
+}
+
+/// Install an empty sink on this thread (replacing any previous one).
+pub fn start() {
+    SINK.with(|s| *s.borrow_mut() = Some(Vec::new()));
+}
+
+/// Remove the sink and return what was recorded.
+pub fn take() -> Vec<String> {
+    SINK.with(|s| s.borrow_mut().take().unwrap_or_default())
+}
+
+/// Whether a sink is installed.
+pub fn enabled() -> bool {
+    SINK.with(|s| s.borrow().is_some())
+}
+
+/// Record one line (lazily built) if a sink is installed.
+pub fn emit<F: FnOnce() -> String>(f: F) {
+    SINK.with(|s| {
+        if let Some(v) = s.borrow_mut().as_mut() {
+            v.push(f());
+        }
+    });
+}
